@@ -80,6 +80,8 @@ package socket
 // protocol (rebuilt from the arguments) – exactly what newSocket establishes.
 //@ func (*socket).Reset
 //@   property C20
+//@   flags libframe frame-unchecked
+//@   modifies fields(s), lockset
 //@   ensures[id-cleared] s.id == ""
 //@   ensures[swap-cleared] s.swap == nil
 //@   ensures[conn-replaced] s.Conn == netConn
